@@ -1,3 +1,4 @@
+pub mod byzhist;
 pub mod c05;
 pub mod c09;
 pub mod c10;
@@ -15,6 +16,8 @@ pub fn all_arms() -> Vec<Box<dyn Arm>> {
     let mut v: Vec<Box<dyn Arm>> = vec![];
     v.extend(hist::arms());
     v.push(Box::new(c05::C05));
+    v.push(Box::new(byzhist::ByzHist { id: "C06" }));
+    v.push(Box::new(byzhist::ByzHist { id: "C07" }));
     v.push(Box::new(c09::C09));
     v.push(Box::new(c10::C10));
     v.push(Box::new(c11::C11));
